@@ -30,7 +30,7 @@ HARNESSES = [
   'desc': 'collapse_default_remaps on every overload table of 3 overloads with argument-count ranges within 0..AMAX',
   'domain': 'every multiset of 3 overloads, each absent or accepting a contiguous range of argument counts in 0..AMAX (enumerated, map_sets built as write_function_for_name does)',
   'oracle': 'at least one arity kept, largest arity kept, returned minimum within the arities; every argument count selects at most one overload set; an overload that accepted n arguments is in the set consulted for n; no overload invented',
-  'bounds': {'quick': {'defs': {'AMAX': 2, 'OPT_FROM': 0, 'OPT_TO': 1}, 'unwind': 40, 'cap': 300}}},
+  'bounds': {'quick': {'defs': {'AMAX': 2, 'OPT_FROM': 0, 'OPT_TO': 1}, 'unwind': 40, 'cap': 200}}},
 ]
 
 PROPERTY_INFO = {'C02': {'level': 'model_checking',
